@@ -467,6 +467,97 @@ impl<'a> G<'a> {
             }
         }
     }
+    fn total_len(&self) -> usize {
+        let c = self.cur();
+        match self.st.worlds[c].as_ref() {
+            Some(w) => (0..NARCH).map(|a| crate::dispatch!(a, A => <A as ArchX>::of(w).len())).sum(),
+            None => 0,
+        }
+    }
+    fn nest_node(&mut self, depth: usize, focus_a: usize, focus_col: usize) -> String {
+        let kids = if depth == 0 {
+            String::new()
+        } else {
+            let n = [0, 1, 1, 2][self.rng.below(4)];
+            (0..n).map(|_| self.nest_node(depth - 1, focus_a, focus_col)).collect::<Vec<_>>().join(" ")
+        };
+        // bias towards the focus cell so that conflicts really happen
+        let a = if self.rng.chance(65) { focus_a } else { self.rng.below(NARCH) };
+        let col = if a == focus_a && self.rng.chance(65) { focus_col.min(self.ncols[a] - 1) } else { self.rng.below(self.ncols[a]) };
+        let m = if self.rng.chance(45) { "m" } else { "s" };
+        let small = self.total_len() <= 5;
+        match self.rng.below(if small { 10 } else { 8 }) {
+            0 | 1 | 2 => format!("( bs {} {} {} {} )", a, col, m, kids),
+            3 | 4 => {
+                let h = self.pick_live(Some(a)).or_else(|| self.pick_any_ent()).map(|h| h.0).unwrap_or("h0".to_string());
+                format!("( bc {} {} {} {} {} )", a, h, col, m, kids)
+            }
+            5 | 6 => {
+                let q = self.rng.below(crate::queries::MENU.len());
+                let h = self.pick_live(None).or_else(|| self.pick_any_ent()).map(|h| h.0).unwrap_or("h0".to_string());
+                format!("( fb q{} {} {} )", q, h, kids)
+            }
+            7 => "( cl )".to_string(),
+            _ => {
+                let q = self.rng.below(crate::queries::MENU.len());
+                format!("( ib q{} {} )", q, if depth >= 2 { String::new() } else { kids })
+            }
+        }
+    }
+    fn nest_random(&mut self) {
+        let fa = self.rng.below(NARCH);
+        let fc = self.rng.below(self.ncols[fa]);
+        let depth = 1 + self.rng.below(3);
+        let n = 1 + self.rng.below(2);
+        let trees: Vec<String> = (0..n).map(|_| self.nest_node(depth, fa, fc)).collect();
+        self.emit(format!("nest {}", trees.join(" ")));
+    }
+    /// all (outer, inner) pairs over one focus cell: kinds x modes x same/other column x
+    /// same/other archetype x same/other entity
+    fn nest_pairs(&mut self) {
+        let live: Vec<(String, usize)> = {
+            let c = self.cur();
+            self.ents.iter().filter(|(n, _)| self.live[c].contains(n)).cloned().collect()
+        };
+        let Some((h1, a)) = self.rng.pick(&live).cloned() else { return };
+        let h2 = live.iter().find(|(n, aa)| *aa == a && *n != h1).map(|x| x.0.clone()).unwrap_or(h1.clone());
+        let other_a = (a + 1 + self.rng.below(NARCH - 1)) % NARCH;
+        let col = self.rng.below(self.ncols[a]);
+        let col2 = (col + 1) % self.ncols[a];
+        let qs: Vec<usize> = (0..crate::queries::MENU.len()).collect();
+        let small = self.total_len() <= 6;
+        let mut accesses: Vec<String> = Vec::new();
+        for m in ["s", "m"] {
+            accesses.push(format!("bs {} {} {}", a, col, m));
+            accesses.push(format!("bs {} {} {}", a, col2, m));
+            accesses.push(format!("bs {} {} {}", other_a, 0, m));
+            accesses.push(format!("bc {} {} {} {}", a, h1, col, m));
+            accesses.push(format!("bc {} {} {} {}", a, h2, col, m));
+            accesses.push(format!("bc {} {} {} {}", a, h1, col2, m));
+        }
+        for q in &qs {
+            accesses.push(format!("fb q{} {}", q, h1));
+            if small {
+                accesses.push(format!("ib q{}", q));
+            }
+        }
+        accesses.push("cl".to_string());
+        // a random sample of the full product per call keeps sequences bounded; over a run the
+        // whole product is covered many times
+        let budget = 60;
+        for _ in 0..budget {
+            if !self.budget() {
+                break;
+            }
+            let o = accesses[self.rng.below(accesses.len())].clone();
+            let i = accesses[self.rng.below(accesses.len())].clone();
+            if o == "cl" {
+                self.emit(format!("nest ( cl ) ( {} )", i));
+            } else {
+                self.emit(format!("nest ( {} ( {} ) )", o, i));
+            }
+        }
+    }
     fn dump_all(&mut self) {
         for a in 0..NARCH {
             self.emit(format!("dump {}", a));
@@ -528,8 +619,10 @@ pub fn run_sequence(st: &mut St, seed: u64, maxops: usize, profile: &str) {
         "clone" => [16, 8, 12, 6, 14, 6, 8, 8, 12, 2, 1, 4, 3],
         "forge" => [14, 6, 10, 6, 8, 2, 6, 2, 3, 30, 8, 3, 2],
         "events" => [18, 10, 16, 4, 4, 2, 14, 3, 4, 1, 0, 2, 22],
+        "borrow" => [10, 4, 5, 2, 2, 2, 2, 1, 1, 0, 0, 1, 0],
         _ => [18, 9, 14, 7, 12, 6, 14, 3, 4, 5, 2, 4, 2],
     };
+    let nest_pct = match profile { "borrow" => 55, "mix" => 4, _ => 0 };
     let total: usize = wts.iter().sum();
     // focus archetypes so that positions are really recycled
     let focus: Vec<usize> = {
@@ -537,6 +630,14 @@ pub fn run_sequence(st: &mut St, seed: u64, maxops: usize, profile: &str) {
         (0..k).map(|_| g.rng.below(NARCH)).collect()
     };
     while g.budget() {
+        if nest_pct > 0 && g.rng.chance(nest_pct) {
+            if profile == "borrow" && g.rng.chance(12) {
+                g.nest_pairs();
+            } else {
+                g.nest_random();
+            }
+            continue;
+        }
         let mut r = g.rng.below(total);
         let mut which = 0;
         for (i, w) in wts.iter().enumerate() {
